@@ -1,7 +1,1083 @@
-//! C13: not implemented yet.
+//! C13: bound parameters behave like the equivalent literals.
+//!
+//! Every generated statement is rendered twice — with SQL literals, and with `?` / `$n` placeholders plus a
+//! parameter vector — and executed on TWIN databases (same schema, same seed rows): the literal text through
+//! `Database::execute`, the parameterised text through `execute_with_params`, through `prepare -> bind ->
+//! execute/query`, and through repeated executions of ONE prepared statement (cached insert/update plans).
+//! Results (rows_affected, RETURNING rows, query rows) and the final table states must be equal on both twins.
+use crate::props::c11::{err_class, lit_blob, lit_f64, lit_text, pump, Sink};
+use crate::report::{catch, Ctx};
+use crate::rng::{fnv, Rng};
+use crate::sqlm::db::{is_panic, panic_tag, Db, Scratch};
 use crate::Args;
+use serde_json::{json, Value as J};
+use std::collections::{BTreeMap, BTreeSet};
+use turdb::OwnedValue as OV;
 
-pub fn run(_a: &Args) -> i32 {
-    println!("INCONCLUSIVE property=C13 reason=check not implemented yet");
-    2
+// ---------------------------------------------------------------------------------------------
+// values, slots, statements
+
+#[derive(Clone, Debug, PartialEq)]
+enum PV {
+    Null,
+    Int(i64),
+    Float(f64),
+    Text(String),
+    Blob(Vec<u8>),
+}
+
+impl PV {
+    fn lit(&self) -> String {
+        match self {
+            PV::Null => "NULL".into(),
+            PV::Int(i) => i.to_string(),
+            PV::Float(f) => lit_f64(*f),
+            PV::Text(s) => lit_text(s),
+            PV::Blob(b) => lit_blob(b),
+        }
+    }
+    fn ov(&self) -> OV {
+        match self {
+            PV::Null => OV::Null,
+            PV::Int(i) => OV::Int(*i),
+            PV::Float(f) => OV::Float(*f),
+            PV::Text(s) => OV::Text(s.clone()),
+            PV::Blob(b) => OV::Blob(b.clone()),
+        }
+    }
+}
+
+#[derive(Clone, Debug)]
+struct Slot {
+    v: PV,
+    class: String,
+    /// replacement used while attributing a divergence to parameter classes (None = never replaced: row ids, LIMIT)
+    benign: Option<PV>,
+}
+
+#[derive(Clone, Debug)]
+enum Part {
+    S(String),
+    P(usize),
+}
+
+#[derive(Clone, Debug)]
+struct Stmt {
+    kind: &'static str,
+    parts: Vec<Part>,
+    slots: Vec<Slot>,
+    select: bool,
+    /// (table, id slot, text slot, blob slot): rows whose stored text/blob must equal the bound value byte for byte
+    verbatim: Vec<(&'static str, usize, Option<usize>, Option<usize>)>,
+}
+
+#[derive(Clone, Debug)]
+enum Style {
+    Anon,
+    /// slot index -> 0-based parameter position
+    Positional(Vec<usize>),
+}
+
+impl Stmt {
+    fn lit_sql(&self) -> String {
+        self.parts.iter().map(|p| match p { Part::S(s) => s.clone(), Part::P(i) => self.slots[*i].v.lit() }).collect()
+    }
+    fn param_sql(&self, style: &Style) -> (String, Vec<OV>) {
+        let mut sql = String::new();
+        let mut params: Vec<OV> = vec![];
+        match style {
+            Style::Anon => {
+                for p in &self.parts {
+                    match p {
+                        Part::S(s) => sql.push_str(s),
+                        Part::P(i) => {
+                            sql.push('?');
+                            params.push(self.slots[*i].v.ov());
+                        }
+                    }
+                }
+            }
+            Style::Positional(perm) => {
+                params = vec![OV::Null; self.slots.len()];
+                for (i, s) in self.slots.iter().enumerate() {
+                    params[perm[i]] = s.v.ov();
+                }
+                for p in &self.parts {
+                    match p {
+                        Part::S(s) => sql.push_str(s),
+                        Part::P(i) => sql.push_str(&format!("${}", perm[*i] + 1)),
+                    }
+                }
+            }
+        }
+        (sql, params)
+    }
+}
+
+const TEXT_CLASSES: &[&str] = &["text_plain", "text_empty", "text_quote", "text_comment", "text_semicolon", "text_backslash", "text_control", "text_sqlish", "text_placeholder", "text_unicode", "text_toast"];
+
+fn gen_text_class(rng: &mut Rng, class: &str) -> String {
+    let w = |rng: &mut Rng| -> String { (0..rng.usize(1, 6)).map(|_| (b'a' + rng.below(26) as u8) as char).collect() };
+    match class {
+        "text_plain" => w(rng),
+        "text_empty" => String::new(),
+        "text_quote" => format!("{}{}{}", w(rng), rng.pick(&["'", "''", "'''", "\"", "'\"'", "it's"]), w(rng)),
+        "text_comment" => format!("{}{}{}", w(rng), rng.pick(&["--", "-- x", "/*", "*/", "/* c */", "/*'*/", "#"]), w(rng)),
+        "text_semicolon" => format!("{}{}{}", w(rng), rng.pick(&[";", "; ", ";;", "';"]), w(rng)),
+        "text_backslash" => format!("{}{}{}", w(rng), rng.pick(&["\\", "\\\\", "\\'", "\\n", "\\x00", "\\"]), rng.pick(&["", "a", "'"])),
+        "text_control" => format!("{}{}{}", w(rng), rng.pick(&["\n", "\r\n", "\t", "\u{1}", "\u{1b}[0m", "\u{7f}", "\u{8}", "\u{c}"]), w(rng)),
+        "text_sqlish" => rng.pick(&["'); DROP TABLE t; --", "'; DROP TABLE other; --", "' OR '1'='1", "1; DELETE FROM other", "x' WHERE 1=1; --", "'); CREATE TABLE pwned (id INT); --", "NULL", "TRUE", "1 OR 1=1", "') , (999, 1, 1.0, 'inj', NULL); --", "a' || (SELECT s FROM other) || '"]).to_string(),
+        "text_placeholder" => rng.pick(&["?", "$1", "$2 ?", ":name", "'?'", "a ? b $1"]).to_string(),
+        "text_unicode" => format!("{}{}{}", w(rng), rng.pick(&["é", "日本語", "😀", "e\u{301}", "\u{202e}abc", "𝄞"]), w(rng)),
+        _ => {
+            // above the TOAST threshold
+            let n = rng.usize(1001, 9000);
+            let mut s = String::new();
+            while s.len() < n {
+                s.push_str(&w(rng));
+                s.push(' ');
+            }
+            s
+        }
+    }
+}
+
+fn slot_text(rng: &mut Rng, allow_null: bool) -> Slot {
+    if allow_null && rng.chance(1, 12) {
+        return Slot { v: PV::Null, class: "null".into(), benign: Some(PV::Text("abc".into())) };
+    }
+    let class = if rng.chance(1, 4) { "text_plain" } else { *rng.pick(TEXT_CLASSES) };
+    Slot { v: PV::Text(gen_text_class(rng, class)), class: class.into(), benign: Some(PV::Text("abc".into())) }
+}
+fn slot_int(rng: &mut Rng, allow_null: bool) -> Slot {
+    let benign = Some(PV::Int(35));
+    if allow_null && rng.chance(1, 12) {
+        return Slot { v: PV::Null, class: "null".into(), benign };
+    }
+    let (v, c) = match rng.below(10) {
+        0 => (i64::MAX, "i64_max"),
+        1 => (i64::MIN, "i64_min"),
+        2 => (i64::MIN + 1, "i64_min_plus1"),
+        3 => (0, "int_zero"),
+        4 => (-(rng.range(1, 100)), "int_negative"),
+        5 => ((1i64 << 53) + 1, "int_above_2_53"),
+        _ => (rng.range(1, 100), "int_small"),
+    };
+    Slot { v: PV::Int(v), class: c.into(), benign }
+}
+fn slot_float(rng: &mut Rng, allow_null: bool) -> Slot {
+    let benign = Some(PV::Float(2.5));
+    if allow_null && rng.chance(1, 12) {
+        return Slot { v: PV::Null, class: "null".into(), benign };
+    }
+    let (v, c) = match rng.below(9) {
+        // `{}` prints 1e21 as 1000000000000000000000, 1.5e-7 as 0.00000015, 1.0 as 1
+        0 => (1e21, "float_large_no_exponent"),
+        1 => (1.5e300, "float_huge"),
+        2 => (1.5e-7, "float_small_fraction"),
+        3 => (5e-324, "float_subnormal"),
+        4 => (rng.range(-50, 50) as f64, "float_integral"),
+        5 => (-0.0, "float_neg_zero"),
+        6 => (0.1 + 0.2, "float_17_digits"),
+        _ => (rng.range(-1000, 1000) as f64 + 0.25, "float_plain"),
+    };
+    Slot { v: PV::Float(v), class: c.into(), benign }
+}
+fn slot_blob(rng: &mut Rng) -> Slot {
+    let benign = Some(PV::Blob(vec![1, 2]));
+    match rng.below(5) {
+        0 => Slot { v: PV::Null, class: "null".into(), benign },
+        1 => Slot { v: PV::Blob(vec![]), class: "blob_empty".into(), benign },
+        2 => Slot { v: PV::Blob(b"'); DROP TABLE t; --".to_vec()), class: "blob_sqlish_utf8".into(), benign },
+        _ => {
+            let n = rng.usize(1, 40);
+            Slot { v: PV::Blob(rng.bytes(n)), class: "blob_random".into(), benign }
+        }
+    }
+}
+fn slot_id(id: i64) -> Slot {
+    Slot { v: PV::Int(id), class: "id".into(), benign: None }
+}
+
+const SEED_IDS: i64 = 8;
+
+fn fresh_ids(rng: &mut Rng, n: usize) -> Vec<i64> {
+    let mut s = BTreeSet::new();
+    while s.len() < n {
+        s.insert(rng.range(SEED_IDS + 1, 5000));
+    }
+    let mut v: Vec<i64> = s.into_iter().collect();
+    rng.shuffle(&mut v);
+    v
+}
+
+pub const KINDS: &[&str] = &[
+    "insert_all_columns",
+    "insert_column_list_permuted",
+    "insert_column_list_partial",
+    "insert_mixed_with_literals",
+    "insert_multi_row",
+    "insert_repeated_param",
+    "insert_returning",
+    "insert_u_default_column_omitted",
+    "insert_u_not_null",
+    "update_set_where_pk",
+    "update_set_where_range",
+    "update_set_expression",
+    "update_where_text",
+    "update_mixed_with_literals",
+    "delete_where_pk",
+    "delete_where_range",
+    "delete_where_text",
+    "select_where",
+    "select_where_limit",
+    "select_list_param",
+    "select_in_between",
+];
+
+fn s(x: &str) -> Part {
+    Part::S(x.to_string())
+}
+
+/// values differ per call, the SQL shape (hence the parameterised text) depends on `kind` only
+fn gen_stmt(rng: &mut Rng, kind: &'static str) -> Stmt {
+    let mut slots: Vec<Slot> = vec![];
+    let mut parts: Vec<Part> = vec![];
+    let mut verbatim = vec![];
+    let mut select = false;
+    let push = |slots: &mut Vec<Slot>, sl: Slot| -> usize {
+        slots.push(sl);
+        slots.len() - 1
+    };
+    match kind {
+        "insert_all_columns" | "insert_returning" => {
+            let id = fresh_ids(rng, 1)[0];
+            let i = push(&mut slots, slot_id(id));
+            let a = push(&mut slots, slot_int(rng, true));
+            let f = push(&mut slots, slot_float(rng, true));
+            let t = push(&mut slots, slot_text(rng, true));
+            let b = push(&mut slots, slot_blob(rng));
+            parts = vec![s("INSERT INTO t VALUES ("), Part::P(i), s(", "), Part::P(a), s(", "), Part::P(f), s(", "), Part::P(t), s(", "), Part::P(b), s(")")];
+            if kind == "insert_returning" {
+                parts.push(s(" RETURNING id, s"));
+            }
+            verbatim.push(("t", i, Some(t), Some(b)));
+        }
+        "insert_column_list_permuted" => {
+            let id = fresh_ids(rng, 1)[0];
+            let t = push(&mut slots, slot_text(rng, true));
+            let i = push(&mut slots, slot_id(id));
+            let b = push(&mut slots, slot_blob(rng));
+            let a = push(&mut slots, slot_int(rng, true));
+            let f = push(&mut slots, slot_float(rng, true));
+            parts = vec![s("INSERT INTO t (s, id, b, a, f) VALUES ("), Part::P(t), s(", "), Part::P(i), s(", "), Part::P(b), s(", "), Part::P(a), s(", "), Part::P(f), s(")")];
+            verbatim.push(("t", i, Some(t), Some(b)));
+        }
+        "insert_column_list_partial" => {
+            let id = fresh_ids(rng, 1)[0];
+            let i = push(&mut slots, slot_id(id));
+            let t = push(&mut slots, slot_text(rng, true));
+            parts = vec![s("INSERT INTO t (id, s) VALUES ("), Part::P(i), s(", "), Part::P(t), s(")")];
+            verbatim.push(("t", i, Some(t), None));
+        }
+        "insert_mixed_with_literals" => {
+            let id = fresh_ids(rng, 1)[0];
+            let i = push(&mut slots, slot_id(id));
+            let t = push(&mut slots, slot_text(rng, true));
+            parts = vec![s("INSERT INTO t VALUES ("), Part::P(i), s(", 77, 1.25, "), Part::P(t), s(", X'0a0b')")];
+            verbatim.push(("t", i, Some(t), None));
+        }
+        "insert_multi_row" => {
+            let ids = fresh_ids(rng, 2);
+            parts.push(s("INSERT INTO t (id, a, s) VALUES "));
+            for (k, id) in ids.iter().enumerate() {
+                let i = push(&mut slots, slot_id(*id));
+                let a = push(&mut slots, slot_int(rng, true));
+                let t = push(&mut slots, slot_text(rng, true));
+                if k > 0 {
+                    parts.push(s(", "));
+                }
+                parts.extend(vec![s("("), Part::P(i), s(", "), Part::P(a), s(", "), Part::P(t), s(")")]);
+                verbatim.push(("t", i, Some(t), None));
+            }
+        }
+        "insert_repeated_param" => {
+            // the same parameter feeds id and a ($1, $1 in positional style)
+            let id = fresh_ids(rng, 1)[0];
+            let i = push(&mut slots, slot_id(id));
+            let t = push(&mut slots, slot_text(rng, true));
+            parts = vec![s("INSERT INTO t (id, a, s) VALUES ("), Part::P(i), s(", "), Part::P(i), s(", "), Part::P(t), s(")")];
+            verbatim.push(("t", i, Some(t), None));
+        }
+        "insert_u_default_column_omitted" => {
+            let id = fresh_ids(rng, 1)[0];
+            let i = push(&mut slots, slot_id(id));
+            let t = push(&mut slots, slot_text(rng, false));
+            parts = vec![s("INSERT INTO u (id, s) VALUES ("), Part::P(i), s(", "), Part::P(t), s(")")];
+            verbatim.push(("u", i, Some(t), None));
+        }
+        "insert_u_not_null" => {
+            // s is NOT NULL: a NULL parameter must be rejected exactly like a NULL literal
+            let id = fresh_ids(rng, 1)[0];
+            let i = push(&mut slots, slot_id(id));
+            let mut ts = slot_text(rng, false);
+            if rng.chance(1, 2) {
+                ts = Slot { v: PV::Null, class: "null".into(), benign: Some(PV::Text("abc".into())) };
+            }
+            let t = push(&mut slots, ts);
+            let n = push(&mut slots, slot_int(rng, false));
+            parts = vec![s("INSERT INTO u VALUES ("), Part::P(i), s(", "), Part::P(t), s(", "), Part::P(n), s(")")];
+            verbatim.push(("u", i, Some(t), None));
+        }
+        "update_set_where_pk" => {
+            let t = push(&mut slots, slot_text(rng, true));
+            let a = push(&mut slots, slot_int(rng, true));
+            let i = push(&mut slots, slot_id(rng.range(1, SEED_IDS + 1)));
+            parts = vec![s("UPDATE t SET s = "), Part::P(t), s(", a = "), Part::P(a), s(" WHERE id = "), Part::P(i)];
+            verbatim.push(("t", i, Some(t), None));
+        }
+        "update_set_where_range" => {
+            let t = push(&mut slots, slot_text(rng, true));
+            let mut lim = slot_int(rng, false);
+            if rng.chance(2, 3) {
+                lim = Slot { v: PV::Int(rng.range(0, 90)), class: "int_small".into(), benign: Some(PV::Int(35)) };
+            }
+            let a = push(&mut slots, lim);
+            parts = vec![s("UPDATE t SET s = "), Part::P(t), s(" WHERE a > "), Part::P(a)];
+        }
+        "update_set_expression" => {
+            let d = push(&mut slots, Slot { v: PV::Int(rng.range(-50, 50)), class: "int_small".into(), benign: Some(PV::Int(35)) });
+            let i = push(&mut slots, slot_id(rng.range(1, SEED_IDS)));
+            parts = vec![s("UPDATE t SET a = a + "), Part::P(d), s(" WHERE id = "), Part::P(i)];
+        }
+        "update_where_text" => {
+            let a = push(&mut slots, slot_int(rng, true));
+            let mut ts = slot_text(rng, false);
+            if rng.chance(1, 2) {
+                ts = Slot { v: PV::Text(format!("s{}", rng.range(1, SEED_IDS))), class: "text_plain".into(), benign: Some(PV::Text("s3".into())) };
+            }
+            let t = push(&mut slots, ts);
+            parts = vec![s("UPDATE t SET a = "), Part::P(a), s(" WHERE s = "), Part::P(t)];
+        }
+        "update_mixed_with_literals" => {
+            let t = push(&mut slots, slot_text(rng, true));
+            let i = push(&mut slots, slot_id(rng.range(1, SEED_IDS + 1)));
+            parts = vec![s("UPDATE t SET a = 5, s = "), Part::P(t), s(", f = 0.5 WHERE id = "), Part::P(i)];
+            verbatim.push(("t", i, Some(t), None));
+        }
+        "delete_where_pk" => {
+            let i = push(&mut slots, slot_id(rng.range(1, SEED_IDS + 2)));
+            parts = vec![s("DELETE FROM t WHERE id = "), Part::P(i)];
+        }
+        "delete_where_range" => {
+            let mut lim = slot_int(rng, false);
+            if rng.chance(2, 3) {
+                lim = Slot { v: PV::Int(rng.range(0, 90)), class: "int_small".into(), benign: Some(PV::Int(35)) };
+            }
+            let a = push(&mut slots, lim);
+            let f = push(&mut slots, slot_float(rng, false));
+            parts = vec![s("DELETE FROM t WHERE a < "), Part::P(a), s(" AND f <> "), Part::P(f)];
+        }
+        "delete_where_text" => {
+            let mut ts = slot_text(rng, false);
+            if rng.chance(1, 2) {
+                ts = Slot { v: PV::Text(format!("s{}", rng.range(1, SEED_IDS))), class: "text_plain".into(), benign: Some(PV::Text("s3".into())) };
+            }
+            let t = push(&mut slots, ts);
+            parts = vec![s("DELETE FROM t WHERE s = "), Part::P(t)];
+        }
+        "select_where" => {
+            select = true;
+            let mut lim = slot_int(rng, false);
+            if rng.chance(2, 3) {
+                lim = Slot { v: PV::Int(rng.range(0, 90)), class: "int_small".into(), benign: Some(PV::Int(35)) };
+            }
+            let a = push(&mut slots, lim);
+            let t = push(&mut slots, slot_text(rng, false));
+            let f = push(&mut slots, slot_float(rng, false));
+            parts = vec![s("SELECT id, a, s FROM t WHERE a > "), Part::P(a), s(" AND s <> "), Part::P(t), s(" AND f < "), Part::P(f), s(" ORDER BY id")];
+        }
+        "select_where_limit" => {
+            select = true;
+            let a = push(&mut slots, Slot { v: PV::Int(rng.range(0, 90)), class: "int_small".into(), benign: Some(PV::Int(35)) });
+            let l = push(&mut slots, Slot { v: PV::Int(rng.range(0, 6)), class: "limit".into(), benign: None });
+            parts = vec![s("SELECT id, s FROM t WHERE a >= "), Part::P(a), s(" ORDER BY id LIMIT "), Part::P(l)];
+        }
+        "select_list_param" => {
+            select = true;
+            let v = match rng.below(4) {
+                0 => slot_int(rng, true),
+                1 => slot_float(rng, false),
+                2 => slot_blob(rng),
+                _ => slot_text(rng, false),
+            };
+            let v = push(&mut slots, v);
+            let i = push(&mut slots, slot_id(rng.range(1, SEED_IDS)));
+            parts = vec![s("SELECT id, "), Part::P(v), s(" FROM t WHERE id = "), Part::P(i)];
+        }
+        _ => {
+            select = true;
+            let lo = push(&mut slots, Slot { v: PV::Int(rng.range(0, 40)), class: "int_small".into(), benign: Some(PV::Int(10)) });
+            let hi = push(&mut slots, slot_int(rng, false));
+            let i1 = push(&mut slots, slot_id(rng.range(1, SEED_IDS)));
+            let i2 = push(&mut slots, slot_id(rng.range(1, SEED_IDS + 3)));
+            parts = vec![s("SELECT id, a FROM t WHERE a BETWEEN "), Part::P(lo), s(" AND "), Part::P(hi), s(" OR id IN ("), Part::P(i1), s(", "), Part::P(i2), s(") ORDER BY id")];
+        }
+    }
+    Stmt { kind, parts, slots, select, verbatim }
+}
+
+// ---------------------------------------------------------------------------------------------
+// twins
+
+const CREATE: &[&str] = &[
+    "CREATE TABLE t (id INT PRIMARY KEY, a BIGINT, f DOUBLE PRECISION, s TEXT, b BLOB)",
+    "CREATE TABLE u (id INT PRIMARY KEY, s TEXT NOT NULL, n INT DEFAULT 7)",
+    "CREATE TABLE other (id INT PRIMARY KEY, s TEXT)",
+];
+
+fn seed_sql() -> Vec<String> {
+    let mut rows = vec![];
+    for i in 1..=SEED_IDS {
+        if i == 5 {
+            rows.push(format!("({}, NULL, NULL, NULL, NULL)", i));
+        } else {
+            rows.push(format!("({}, {}, {}.5, 's{}', X'0{}')", i, i * 10, i, i, i));
+        }
+    }
+    vec![
+        "DELETE FROM t".into(),
+        "DELETE FROM u".into(),
+        "DELETE FROM other".into(),
+        format!("INSERT INTO t VALUES {}", rows.join(", ")),
+        "INSERT INTO u VALUES (1, 'u1', 1), (2, 'u2', 2)".into(),
+        "INSERT INTO other VALUES (1, 'keep1'), (2, 'keep2'), (3, 'keep3')".into(),
+    ]
+}
+
+type Rows = Vec<Vec<OV>>;
+
+#[derive(Clone, Debug)]
+enum Res {
+    Dml(usize, Option<Rows>),
+    Rows(Rows),
+    Other(String),
+    Err(String),
+}
+
+fn conv(rows: Vec<turdb::Row>) -> Rows {
+    rows.into_iter().map(|r| r.values).collect()
+}
+fn res_of(r: Result<Result<turdb::ExecuteResult, eyre::Report>, String>) -> Res {
+    use turdb::ExecuteResult as ER;
+    match r {
+        Ok(Ok(ER::Insert { rows_affected, returned })) | Ok(Ok(ER::Update { rows_affected, returned })) | Ok(Ok(ER::Delete { rows_affected, returned })) => Res::Dml(rows_affected, returned.map(conv)),
+        Ok(Ok(ER::Select { rows, .. })) => Res::Rows(conv(rows)),
+        Ok(Ok(o)) => Res::Other(format!("{:?}", o).chars().take(80).collect()),
+        Ok(Err(e)) => Res::Err(format!("{:#}", e)),
+        Err(p) => Res::Err(format!("PANIC: {}", p)),
+    }
+}
+fn res_of_rows(r: Result<Result<Vec<turdb::Row>, eyre::Report>, String>) -> Res {
+    match r {
+        Ok(Ok(rows)) => Res::Rows(conv(rows)),
+        Ok(Err(e)) => Res::Err(format!("{:#}", e)),
+        Err(p) => Res::Err(format!("PANIC: {}", p)),
+    }
+}
+
+fn ov_bits_eq(a: &OV, b: &OV) -> bool {
+    match (a, b) {
+        (OV::Float(x), OV::Float(y)) => x.to_bits() == y.to_bits() || (x.is_nan() && y.is_nan()),
+        _ => a == b,
+    }
+}
+fn rows_eq(a: &Rows, b: &Rows) -> bool {
+    a.len() == b.len() && a.iter().zip(b.iter()).all(|(x, y)| x.len() == y.len() && x.iter().zip(y.iter()).all(|(p, q)| ov_bits_eq(p, q)))
+}
+fn show_rows(r: &Rows) -> J {
+    J::Array(r.iter().take(12).map(|row| J::Array(row.iter().map(|v| J::String(short(&format!("{:?}", v), 120))).collect())).collect())
+}
+fn short(s: &str, n: usize) -> String {
+    if s.len() <= n {
+        s.to_string()
+    } else {
+        let mut cut = n;
+        while !s.is_char_boundary(cut) {
+            cut -= 1;
+        }
+        format!("{}...<{} bytes>", &s[..cut], s.len())
+    }
+}
+fn show_res(r: &Res) -> J {
+    match r {
+        Res::Dml(n, ret) => json!({"rows_affected": n, "returned": ret.as_ref().map(show_rows)}),
+        Res::Rows(rows) => json!({"rows": show_rows(rows), "row_count": rows.len()}),
+        Res::Other(o) => json!({"other": o}),
+        Res::Err(e) => json!({"error": short(e, 300)}),
+    }
+}
+
+/// label of the difference between the literal twin's result and the parameter twin's result
+fn divergence(a: &Res, b: &Res) -> Option<String> {
+    match (a, b) {
+        (Res::Err(x), _) if is_panic(x) => None, // the literal statement itself panics: not a parameter matter (C22)
+        (_, Res::Err(y)) if is_panic(y) => Some(format!("param_panic:{}", panic_tag(y))),
+        (Res::Err(_), Res::Err(_)) => None,
+        (Res::Err(x), _) => Some(format!("literal_error_param_ok:{}", err_class(x))),
+        (_, Res::Err(y)) => Some(format!("param_error:{}", err_class(y))),
+        (Res::Dml(n1, r1), Res::Dml(n2, r2)) => {
+            if n1 != n2 {
+                Some("rows_affected".into())
+            } else {
+                match (r1, r2) {
+                    (None, None) => None,
+                    (Some(x), Some(y)) if rows_eq(x, y) => None,
+                    _ => Some("returned_rows".into()),
+                }
+            }
+        }
+        (Res::Rows(x), Res::Rows(y)) => {
+            if rows_eq(x, y) {
+                None
+            } else if x.len() != y.len() {
+                Some("query_row_count".into())
+            } else {
+                let type_only = x.iter().zip(y.iter()).all(|(p, q)| p.len() == q.len() && p.iter().zip(q.iter()).all(|(v, w)| ov_bits_eq(v, w) || std::mem::discriminant(v) != std::mem::discriminant(w)));
+                Some(if type_only { "query_value_type".into() } else { "query_values".into() })
+            }
+        }
+        (Res::Other(x), Res::Other(y)) if x == y => None,
+        _ => Some("result_kind".into()),
+    }
+}
+
+struct Twins {
+    a: Db,
+    b: Db,
+    uses: u32,
+}
+
+fn sorted_table(db: &Db, table: &str) -> Result<Rows, String> {
+    match catch(|| db.db.query(&format!("SELECT * FROM {}", table))) {
+        Ok(Ok(rows)) => {
+            let mut r = conv(rows);
+            r.sort_by_key(|row| match row.get(0) {
+                Some(OV::Int(i)) => *i,
+                _ => i64::MIN,
+            });
+            Ok(r)
+        }
+        Ok(Err(e)) => Err(format!("{:#}", e)),
+        Err(p) => Err(format!("PANIC: {}", p)),
+    }
+}
+/// state of all tables, or the first error
+fn state(db: &Db) -> Result<Vec<(&'static str, Rows)>, String> {
+    let mut out = vec![];
+    for t in ["t", "u", "other"] {
+        out.push((t, sorted_table(db, t).map_err(|e| format!("{}: {}", t, e))?));
+    }
+    Ok(out)
+}
+fn file_names(db: &Db) -> BTreeSet<String> {
+    fn walk(p: &std::path::Path, base: &std::path::Path, out: &mut BTreeSet<String>) {
+        if let Ok(rd) = std::fs::read_dir(p) {
+            for e in rd.flatten() {
+                let path = e.path();
+                if path.is_dir() {
+                    walk(&path, base, out);
+                } else if let Ok(rel) = path.strip_prefix(base) {
+                    out.insert(rel.to_string_lossy().to_string());
+                }
+            }
+        }
+    }
+    let mut out = BTreeSet::new();
+    walk(&db.path, &db.path, &mut out);
+    out
+}
+
+impl Twins {
+    fn create_at(dirs: &(std::path::PathBuf, std::path::PathBuf)) -> Result<Twins, String> {
+        let _ = std::fs::remove_dir_all(&dirs.0);
+        let _ = std::fs::remove_dir_all(&dirs.1);
+        let a = Db::create(&dirs.0)?;
+        let b = Db::create(&dirs.1)?;
+        for db in [&a, &b] {
+            for c in CREATE {
+                match catch(|| db.db.execute(c)) {
+                    Ok(Ok(_)) => {}
+                    Ok(Err(e)) => return Err(format!("{}: {:#}", c, e)),
+                    Err(p) => return Err(format!("{}: PANIC {}", c, p)),
+                }
+            }
+        }
+        Ok(Twins { a, b, uses: 0 })
+    }
+    /// both twins back to the seed rows; false if that did not work (caller recreates the twins)
+    fn reset(&mut self) -> bool {
+        self.uses += 1;
+        for db in [&self.a, &self.b] {
+            for q in seed_sql() {
+                match catch(|| db.db.execute(&q)) {
+                    Ok(Ok(_)) => {}
+                    _ => return false,
+                }
+            }
+        }
+        match (state(&self.a), state(&self.b)) {
+            (Ok(x), Ok(y)) => x.len() == y.len() && x.iter().zip(y.iter()).all(|(p, q)| rows_eq(&p.1, &q.1)) && x[0].1.len() == SEED_IDS as usize && x[1].1.len() == 2 && x[2].1.len() == 3,
+            _ => false,
+        }
+    }
+}
+
+#[derive(Clone, Copy, PartialEq, Debug)]
+enum Api {
+    ExecWithParams,
+    /// prepare -> bind -> execute (DML) / query (SELECT)
+    Prepared,
+    /// prepare -> bind -> execute for SELECT as well
+    PreparedExecute,
+}
+
+struct Outcome {
+    /// (step, sub-assertion, divergence label, detail)
+    fails: Vec<(usize, &'static str, String, J)>,
+    judged: bool,
+}
+
+/// run `steps` (same shape, same style) on fresh-reset twins; literal on A, parameters on B
+fn run_experiment(tw: &mut Twins, steps: &[Stmt], style: &Style, api: Api) -> Option<Outcome> {
+    if !tw.reset() {
+        return None;
+    }
+    let mut fails: Vec<(usize, &'static str, String, J)> = vec![];
+    let files_before = file_names(&tw.b);
+    let (psql, _) = steps[0].param_sql(style);
+    let prepared = if api != Api::ExecWithParams {
+        match catch(|| tw.b.db.prepare(&psql)) {
+            Ok(Ok(p)) => Some(p),
+            Ok(Err(e)) => {
+                // prepare refuses the statement: judged against the literal twin's first result
+                let ra = res_of(catch(|| tw.a.db.execute(&steps[0].lit_sql())));
+                if !matches!(ra, Res::Err(_)) {
+                    fails.push((0, "equal_result", format!("prepare_error:{}", err_class(&format!("{:#}", e))), json!({"param_sql": psql, "error": format!("{:#}", e), "literal_result": show_res(&ra)})));
+                }
+                return Some(Outcome { fails, judged: true });
+            }
+            Err(p) => {
+                fails.push((0, "equal_result", format!("param_panic:{}", panic_tag(&format!("PANIC: {}", p))), json!({"param_sql": psql, "panic": p})));
+                return Some(Outcome { fails, judged: true });
+            }
+        }
+    } else {
+        None
+    };
+    for (k, st) in steps.iter().enumerate() {
+        let lsql = st.lit_sql();
+        let (sql, params) = st.param_sql(style);
+        debug_assert_eq!(sql, psql);
+        let ra = res_of(catch(|| tw.a.db.execute(&lsql)));
+        let rb = match (&prepared, api) {
+            (None, _) => res_of(catch(|| tw.b.db.execute_with_params(&sql, &params))),
+            (Some(p), _) => exec_bound(&tw.b, p, &params, st.select && api == Api::Prepared),
+        };
+        let detail = |extra: J| json!({"literal_sql": short(&lsql, 500), "param_sql": sql, "params": params.iter().map(|p| short(&format!("{:?}", p), 160)).collect::<Vec<_>>(), "literal_result": show_res(&ra), "param_result": show_res(&rb), "step": k, "extra": extra});
+        if let Some(d) = divergence(&ra, &rb) {
+            fails.push((k, "equal_result", d, detail(J::Null)));
+            // the twins are out of step from here on
+            break;
+        }
+        // final states after this step
+        match (state(&tw.a), state(&tw.b)) {
+            (Ok(sa), Ok(sb)) => {
+                let mut diverged = false;
+                for (x, y) in sa.iter().zip(sb.iter()) {
+                    if !rows_eq(&x.1, &y.1) {
+                        let label = if x.1.len() != y.1.len() { format!("state_row_count:{}", x.0) } else { format!("state_values:{}", x.0) };
+                        let asub = if x.0 == "other" { "no_side_effect" } else { "equal_state" };
+                        fails.push((k, asub, label, detail(json!({"table": x.0, "literal_twin": show_rows(&x.1), "param_twin": show_rows(&y.1)}))));
+                        diverged = true;
+                        break;
+                    }
+                }
+                if diverged {
+                    break;
+                }
+            }
+            (Ok(_), Err(e)) => {
+                let label = if is_panic(&e) { format!("state_unreadable_panic:{}", panic_tag(&e)) } else { format!("state_unreadable:{}", err_class(&e)) };
+                fails.push((k, "equal_state", label, detail(json!({"error": e}))));
+                break;
+            }
+            _ => break, // the literal twin is unreadable: not a parameter matter
+        }
+        // stored_verbatim: the bound text/blob is in the row, byte for byte (independent of the literal twin)
+        if let Res::Dml(n, _) = &rb {
+            if *n > 0 {
+                for (table, ids, ts, bs) in &st.verbatim {
+                    let PV::Int(id) = st.slots[*ids].v else { continue };
+                    let cols = if *table == "t" { "s, b" } else { "s, n" };
+                    // through a full scan (the primary-key path is compared separately below)
+                    let got: Rows = match catch(|| tw.b.db.query(&format!("SELECT id, {} FROM {}", cols, table))) {
+                        Ok(Ok(r)) => conv(r).into_iter().filter(|r| matches!(r.get(0), Some(OV::Int(i)) if *i == id)).map(|r| r[1..].to_vec()).collect(),
+                        _ => vec![],
+                    };
+                    if st.kind.starts_with("update") && got.is_empty() {
+                        continue; // updated row id not present (id beyond the seeds)
+                    }
+                    // the same row through the primary-key index, on both twins
+                    let pk = |db: &Db| -> Option<usize> {
+                        match catch(|| db.db.query(&format!("SELECT id FROM {} WHERE id = {}", table, id))) {
+                            Ok(Ok(r)) => Some(r.len()),
+                            _ => None,
+                        }
+                    };
+                    let (pa, pb) = (pk(&tw.a), pk(&tw.b));
+                    if pa.is_some() && pa != pb {
+                        fails.push((k, "equal_state", format!("pk_lookup_row_count:{}", table), detail(json!({"table": table, "id": id, "literal_twin_rows": pa, "param_twin_rows": pb}))));
+                    }
+                    for (slot, col) in [(ts, 0usize), (bs, 1usize)] {
+                        let Some(slot) = slot else { continue };
+                        let want = st.slots[*slot].v.ov();
+                        let have = got.get(0).and_then(|r| r.get(col)).cloned();
+                        let ok = matches!(&have, Some(h) if ov_bits_eq(h, &want));
+                        if !ok {
+                            fails.push((k, "stored_verbatim", "stored_differs".to_string(), detail(json!({"table": table, "id": id, "bound": short(&format!("{:?}", want), 200), "stored": have.map(|h| short(&format!("{:?}", h), 200))}))));
+                        }
+                    }
+                }
+            }
+        }
+    }
+    // no_side_effect: same files as before on the parameter twin, except files the literal twin also has
+    let files_after = file_names(&tw.b);
+    if files_after != files_before {
+        let fa = file_names(&tw.a);
+        let added: Vec<&String> = files_after.difference(&files_before).filter(|f| !fa.contains(*f)).collect();
+        let removed: Vec<&String> = files_before.difference(&files_after).filter(|f| fa.contains(*f)).collect();
+        if !added.is_empty() || !removed.is_empty() {
+            fails.push((0, "no_side_effect", "catalog_files_changed".into(), json!({"param_sql": psql, "added": added, "removed": removed})));
+        }
+    }
+    Some(Outcome { fails, judged: true })
+}
+
+fn api_name(api: Api, step: usize, select: bool) -> &'static str {
+    match api {
+        Api::ExecWithParams => "execute_with_params",
+        Api::Prepared | Api::PreparedExecute => {
+            if step > 0 {
+                "cached"
+            } else if select && api == Api::PreparedExecute {
+                "prepared_execute"
+            } else {
+                "prepared"
+            }
+        }
+    }
+}
+
+fn style_name(s: &Style) -> &'static str {
+    match s {
+        Style::Anon => "anonymous",
+        Style::Positional(p) => {
+            if p.windows(2).all(|w| w[0] < w[1]) {
+                "positional_in_order"
+            } else {
+                "positional_out_of_order"
+            }
+        }
+    }
+}
+
+// ---------------------------------------------------------------------------------------------
+
+#[derive(Clone, Debug)]
+enum Item {
+    /// one twin experiment
+    Exp { kind: &'static str, api: Api, seed: u64, first_round: bool },
+    /// wrong parameter counts for one statement
+    Counts { api: Api, seed: u64 },
+}
+
+fn exec_bound(db: &Db, p: &turdb::PreparedStatement, ps: &[OV], query: bool) -> Res {
+    if query {
+        res_of_rows(catch(|| {
+            let mut bound = p.bind(ps[0].clone());
+            for v in &ps[1..] {
+                bound = bound.bind(v.clone());
+            }
+            bound.query(&db.db)
+        }))
+    } else {
+        res_of(catch(|| {
+            let mut bound = p.bind(ps[0].clone());
+            for v in &ps[1..] {
+                bound = bound.bind(v.clone());
+            }
+            bound.execute(&db.db)
+        }))
+    }
+}
+
+/// runs items[start..] on its own twins; every TurDB call is preceded by a `current` event carrying the item index
+fn worker(ctx: Sink, root: std::path::PathBuf, generation: u32, items: std::sync::Arc<Vec<Item>>, start: usize, t0: std::time::Instant, budget: f64) {
+    let mut ntw = 0u32;
+    let twin_dirs = |n: u32| (root.join(format!("g{}-lit{}", generation, n)), root.join(format!("g{}-par{}", generation, n)));
+    let mut tw = match Twins::create_at(&twin_dirs(ntw)) {
+        Ok(t) => t,
+        Err(e) => {
+            ctx.inconclusive(&format!("cannot create twin databases: {}", e));
+            ctx.done();
+            return;
+        }
+    };
+    // memo of attributions: (api, kind, label, classes of all slots) -> attributed classes
+    let mut memo: BTreeMap<String, String> = BTreeMap::new();
+    let mut samples = 0;
+    for idx in start..items.len() {
+        if t0.elapsed().as_secs_f64() > budget {
+            ctx.count("items_skipped_on_time_budget", (items.len() - idx) as u64);
+            break;
+        }
+        if tw.uses > 150 {
+            ntw += 1;
+            match Twins::create_at(&twin_dirs(ntw)) {
+                Ok(t) => {
+                    let old = std::mem::replace(&mut tw, t);
+                    let (pa, pb) = (old.a.path.clone(), old.b.path.clone());
+                    drop(old);
+                    let _ = std::fs::remove_dir_all(pa);
+                    let _ = std::fs::remove_dir_all(pb);
+                }
+                Err(e) => {
+                    ctx.inconclusive(&format!("cannot recreate twin databases: {}", e));
+                    break;
+                }
+            }
+        }
+        match &items[idx] {
+            Item::Exp { kind, api, seed, first_round } => {
+                let (kind, api) = (*kind, *api);
+                let mut rng = Rng::new(*seed);
+                let probe = gen_stmt(&mut rng, kind);
+                if api == Api::PreparedExecute && !probe.select {
+                    continue;
+                }
+                let nsteps = if api == Api::ExecWithParams { 1 } else if rng.chance(2, 3) { 3 } else { 1 };
+                let mut steps = vec![probe];
+                while steps.len() < nsteps {
+                    steps.push(gen_stmt(&mut rng, kind));
+                }
+                let n = steps[0].slots.len();
+                let style = match rng.below(3) {
+                    0 => Style::Anon,
+                    1 => Style::Positional((0..n).collect()),
+                    _ => {
+                        let mut p: Vec<usize> = (0..n).collect();
+                        rng.shuffle(&mut p);
+                        Style::Positional(p)
+                    }
+                };
+                let (psql0, params0) = steps[0].param_sql(&style);
+                ctx.current(format!("{}/{}", api_name(api, 0, steps[0].select), kind), json!({"item": idx, "literal_sql": short(&steps[0].lit_sql(), 300), "param_sql": psql0, "params": params0.iter().map(|p| short(&format!("{:?}", p), 120)).collect::<Vec<_>>(), "executions": nsteps}));
+                ctx.eval();
+                let out = match run_experiment(&mut tw, &steps, &style, api) {
+                    Some(o) => o,
+                    None => {
+                        ctx.count("twins_recreated_after_failed_reset", 1);
+                        ntw += 1;
+                        match Twins::create_at(&twin_dirs(ntw)) {
+                            Ok(t) => tw = t,
+                            Err(e) => {
+                                ctx.inconclusive(&format!("cannot recreate twin databases: {}", e));
+                                break;
+                            }
+                        }
+                        continue;
+                    }
+                };
+                let classes: Vec<String> = steps.iter().flat_map(|s| s.slots.iter().map(|x| x.class.clone())).collect();
+                if out.judged {
+                    ctx.nontrivial(fnv(format!("{}|{:?}|{}|{}|{:?}", kind, api, style_name(&style), nsteps, classes).as_bytes()));
+                    ctx.tally(format!("judged:{}/{}", api_name(api, nsteps - 1, steps[0].select), kind));
+                }
+                if samples < 6 && *first_round && (kind.len() + api as usize) % 5 == 0 {
+                    samples += 1;
+                    ctx.sample(json!({"literal_sql": short(&steps[0].lit_sql(), 200), "param_sql": psql0, "params": params0.iter().map(|p| short(&format!("{:?}", p), 80)).collect::<Vec<_>>(), "api": format!("{:?}", api), "executions_of_the_prepared_statement": nsteps}));
+                }
+                for (step, assertion, label, detail) in out.fails {
+                    let apin = api_name(api, step, steps[0].select);
+                    // attribute to parameter classes: replace parameters by benign ones, one at a time
+                    let memo_key = format!("{}|{}|{}|{}|{:?}", apin, kind, assertion, label, classes);
+                    let attributed = if let Some(x) = memo.get(&memo_key) {
+                        x.clone()
+                    } else {
+                        let mut cur: Vec<Stmt> = steps.clone();
+                        let mut budget_runs = 24;
+                        for si in 0..cur.len() {
+                            for pi in 0..cur[si].slots.len() {
+                                let Some(ben) = cur[si].slots[pi].benign.clone() else { continue };
+                                if cur[si].slots[pi].v == ben || budget_runs == 0 {
+                                    continue;
+                                }
+                                budget_runs -= 1;
+                                let mut cand = cur.clone();
+                                cand[si].slots[pi].v = ben;
+                                cand[si].slots[pi].class = "benign".into();
+                                let still = match run_experiment(&mut tw, &cand, &style, api) {
+                                    Some(o) => o.fails.iter().any(|(s2, a2, l2, _)| *s2 == step && *a2 == assertion && *l2 == label),
+                                    None => false,
+                                };
+                                if still {
+                                    cur = cand;
+                                }
+                            }
+                        }
+                        let mut keep: BTreeSet<String> = BTreeSet::new();
+                        for st in &cur {
+                            for sl in &st.slots {
+                                if sl.class != "benign" && sl.benign.is_some() && sl.benign.as_ref() != Some(&sl.v) {
+                                    keep.insert(sl.class.clone());
+                                }
+                            }
+                        }
+                        let x = if keep.is_empty() { "any".to_string() } else { keep.into_iter().collect::<Vec<_>>().join("+") };
+                        memo.insert(memo_key, x.clone());
+                        x
+                    };
+                    let sig = format!("C13/{}/{}/{}/{}", apin, kind, attributed, label);
+                    ctx.violation(assertion, &sig, json!({"placeholder_style": style_name(&style), "detail": detail, "create": CREATE, "seed": seed_sql()}));
+                }
+            }
+            Item::Counts { api, seed } => {
+                let api = *api;
+                let mut rng = Rng::new(*seed);
+                let kind = *rng.pick(KINDS);
+                let st = gen_stmt(&mut rng, kind);
+                let style = if rng.chance(1, 2) { Style::Anon } else { Style::Positional((0..st.slots.len()).collect()) };
+                let (sql, params) = st.param_sql(&style);
+                for variant in ["too_few", "none", "too_many"] {
+                    let apin = api_name(api, 0, st.select);
+                    let ps: Vec<OV> = match variant {
+                        "too_few" => params[..params.len() - 1].to_vec(),
+                        "none" => vec![],
+                        _ => params.iter().cloned().chain(std::iter::once(OV::Int(1))).collect(),
+                    };
+                    if api != Api::ExecWithParams && ps.is_empty() {
+                        continue; // the API has no way to execute without binding
+                    }
+                    ctx.current(format!("{}/{}/{}", apin, kind, variant), json!({"item": idx, "param_sql": sql, "params_given": ps.len(), "params_needed": params.len()}));
+                    if !tw.reset() {
+                        continue;
+                    }
+                    ctx.eval();
+                    let rb = match api {
+                        Api::ExecWithParams => res_of(catch(|| tw.b.db.execute_with_params(&sql, &ps))),
+                        _ => match catch(|| tw.b.db.prepare(&sql)) {
+                            Ok(Ok(p)) => exec_bound(&tw.b, &p, &ps, st.select),
+                            Ok(Err(e)) => Res::Err(format!("{:#}", e)),
+                            Err(p) => Res::Err(format!("PANIC: {}", p)),
+                        },
+                    };
+                    ctx.nontrivial(fnv(format!("count|{}|{}|{}", apin, kind, variant).as_bytes()));
+                    let detail = json!({"param_sql": sql, "params_given": ps.len(), "params_needed": params.len(), "result": show_res(&rb)});
+                    match &rb {
+                        Res::Err(e) if is_panic(e) => {
+                            ctx.violation("param_count_error", &format!("C13/{}/{}/{}/panic:{}", apin, kind, variant, panic_tag(e)), detail);
+                        }
+                        Res::Err(_) => {
+                            ctx.count(&format!("param_count_{}_rejected", variant), 1);
+                            // nothing may have changed
+                            if let (Ok(sa), Ok(sb)) = (state(&tw.a), state(&tw.b)) {
+                                if !sa.iter().zip(sb.iter()).all(|(x, y)| rows_eq(&x.1, &y.1)) {
+                                    ctx.violation("param_count_error", &format!("C13/{}/{}/{}/rejected_but_state_changed", apin, kind, variant), detail);
+                                }
+                            }
+                        }
+                        _ => {
+                            if variant == "too_many" {
+                                // surplus parameters are not covered by the documentation: counted, not judged
+                                ctx.count("param_count_too_many_accepted", 1);
+                            } else {
+                                ctx.violation("param_count_error", &format!("C13/{}/{}/{}/accepted", apin, kind, variant), detail);
+                            }
+                        }
+                    }
+                }
+            }
+        }
+    }
+    ctx.done();
+}
+
+pub fn run(a: &Args) -> i32 {
+    let mut ctx = Ctx::new(
+        "C13",
+        &a.tier,
+        a.seed,
+        "exploration",
+        "twin databases (t(id PK, a BIGINT, f DOUBLE, s TEXT, b BLOB), u(id PK, s TEXT NOT NULL, n INT DEFAULT 7), other) reset to the same seed rows before every experiment; 21 statement shapes (INSERT all columns / permuted and partial column lists / mixed with literals / multi-row / repeated parameter / RETURNING / DEFAULT and NOT NULL columns, UPDATE with SET and WHERE parameters, SET expressions, DELETE, SELECT with WHERE / LIMIT / select-list / BETWEEN / IN parameters) are rendered with literals (run through Database::execute on twin A) and with `?` or `$n` placeholders in random order (run on twin B through execute_with_params, prepare->bind->execute/query, and three executions of one prepared statement with changing parameters = cached plans); sub-assertions equal_result, equal_state, stored_verbatim (bound text/blob reads back byte-identical), no_side_effect (table `other` and the set of database files unchanged), param_count_error (missing parameters are an error, never a panic, and change nothing). Parameter classes: NULL, i64 extremes, floats whose `{}` form differs from the shortest round-trip form, text with quotes, comment markers, semicolons, backslashes, control characters, placeholders, SQL-looking strings, TOAST-sized text, blobs. A divergence is attributed to parameter classes by replacing parameters with benign values one at a time. distinct_nontrivial = distinct (statement shape, API, placeholder style, parameter classes) experiments that were executed on both twins",
+    );
+    let mut rng = Rng::derive(a.seed, 13);
+    let quick = ctx.quick();
+    if cfg!(miri) {
+        ctx.inconclusive("C13 needs database files (mmap); not runnable under Miri");
+        return ctx.finish();
+    }
+    let scratch = Scratch::new("c13");
+    let rounds = if quick { 30 } else { 600 };
+    let budget = if quick { 45.0 } else { 520.0 };
+    let mut items: Vec<Item> = vec![];
+    for round in 0..rounds {
+        for &kind in KINDS {
+            for &api in &[Api::ExecWithParams, Api::Prepared, Api::PreparedExecute] {
+                items.push(Item::Exp { kind, api, seed: rng.next(), first_round: round == 0 });
+            }
+        }
+        for _ in 0..3 {
+            for &api in &[Api::ExecWithParams, Api::Prepared] {
+                items.push(Item::Counts { api, seed: rng.next() });
+            }
+        }
+    }
+    let items = std::sync::Arc::new(items);
+    let limit = std::time::Duration::from_secs(if quick { 20 } else { 45 });
+    let mut tally: BTreeMap<String, u64> = BTreeMap::new();
+    let mut start = 0usize;
+    let mut generation = 0u32;
+    while start < items.len() {
+        let (tx, rx) = std::sync::mpsc::channel();
+        let sink = Sink(tx);
+        let (root, its, t0) = (scratch.root.clone(), items.clone(), ctx.start);
+        let _w = std::thread::spawn(move || worker(sink, root, generation, its, start, t0, budget));
+        match pump(&mut ctx, &rx, limit, &mut tally) {
+            Ok(()) => break,
+            Err((frag, detail)) => {
+                // a TurDB call did not return: record it, abandon that worker, continue after the item
+                let sig = format!("C13/{}/any/hang", frag);
+                *tally.entry(format!("sig:{}", sig)).or_insert(0) += 1;
+                ctx.violation("equal_result", &sig, json!({"no_progress_for_s": limit.as_secs(), "last": detail}));
+                ctx.count("abandoned_hanging_workers", 1);
+                start = detail.get("item").and_then(|x| x.as_u64()).map(|x| x as usize + 1).unwrap_or(items.len());
+                generation += 1;
+                if generation > 8 {
+                    ctx.inconclusive("too many hanging workers");
+                    break;
+                }
+            }
+        }
+    }
+    let sigs: BTreeMap<String, u64> = tally.iter().filter(|(k, _)| k.starts_with("sig:")).map(|(k, v)| (k[4..].to_string(), *v)).collect();
+    let judged: BTreeMap<String, u64> = tally.iter().filter(|(k, _)| k.starts_with("judged:")).map(|(k, v)| (k[7..].to_string(), *v)).collect();
+    ctx.extra.insert("violations_by_signature".into(), json!(sigs));
+    ctx.extra.insert("experiments_by_api_and_shape".into(), json!(judged));
+    ctx.assumptions.push("the literal rendering of a float is its shortest round-trip form with a '.' or exponent (lexed as a float); NaN and infinities have no literal and are not generated".into());
+    ctx.assumptions.push("parameters are only bound where a value of that SQL type is expected (no text bound to numeric columns)".into());
+    ctx.assumptions.push("statements the literal twin rejects must merely be rejected (any error) by the parameter twin; a panic of the literal statement itself is left to C22".into());
+    ctx.assumptions.push("surplus parameters (more than placeholders) are undocumented: counted, only a panic is a violation".into());
+    ctx.finish()
 }
